@@ -48,7 +48,7 @@ EXTRA_TRUSTED = [
 RULE = ("CALL FORMS AS WRITTEN (extension round 2): per run 3 (thorough: 8) random models (n,h,a <= 3, scale in {0.1,1,3}) x every rank combination v in {vector, batch B=1..3} x "
         "vp in {None, vector, batch B'=1..3} x expand in {True, False} on random 0/1 rows with v != vp: rho / pi / gamma(+1, amplitude net) / gamma(-1, phase net) of the REAL state against "
         "Density.rhoCall / piCall / PRBM.gammaCall (accepted-or-refused, exact result shape, entries); the forms the quantifier names (both batches with expand=True, equal-size batches "
-        "or vp=None with expand=False, both 1-D) at property level, mixed ranks / unequal batch sizes at aux level; "
+        "or vp=None with expand=False, both 1-D) at property level, mixed ranks / unequal batch sizes recorded only (ctx.info: outside the quantifier); "
         "case = (n, h, a, scale, amplitude-net params, phase-net params, alternative phase aux bias, 1-D pairs); every weight/bias "
         "= scale*N(0,1), scale in {0,0.1,1,3,10,30}, phase aux bias 0 in half of the cases and non-zero in the other half; all "
         "4^n pairs of basis states in the expand=True (full matrix, plus a rectangular sub-batch), expand=False (paired) forms, a "
@@ -709,7 +709,9 @@ def malformed(ctx):
             model = ctx.driver.call("c02.paired_batch", B=B, B2=B2)
             if "error" in model:
                 model = {"error": True}
-            ctx.point("rho(v, vp, expand=False) batch sizes", "aux", impl, model, case, exact=True, sig="malformed/paired-batch")
+            # unequal batch sizes with expand=False are outside the quantifier (third audit B-15): outcome class / result size recorded only
+            ctx.info("rho(v, vp, expand=False) batch sizes", impl, model) if B != B2 else \
+                ctx.point("rho(v, vp, expand=False) batch sizes", "aux", impl, model, case, exact=True, sig="malformed/paired-batch")
 
 
 # ------------------------------------------------------------------ call shapes outside the property's call forms (audit items C02-2, C02-3)
@@ -754,7 +756,7 @@ def callshape_probe(ctx):
                                                                  else "differs from the model (informational)"))
                     if r is None:
                         continue
-                    ctx.point("argument unmodified (callshape)", "aux", bool(torch.equal(v, v0)), True, case, exact=True, sig="callshape/arg-modified")
+                    ctx.info("argument unmodified (callshape)", bool(torch.equal(v, v0)), True)   # C02 does not state it: recorded only
                     r = _np(r)
                     # elements: against the implementation's own full matrix (row/column selection) and against the model
                     vi = [k] if vr == "vec" else sel
@@ -775,13 +777,19 @@ def callshape_probe(ctx):
                     if r.size != np.asarray(want).size:  # another result layout: not constrained outside the property's call forms
                         ctx.count("callshape: result layout differs from the model (informational)")
                         continue
-                    ctx.point("rho in a mixed-rank / foreign-dtype form == the matching elements of rho(space, space)", "aux", r.ravel(),
-                              np.asarray(want).ravel(), case, scale=sc, sig="callshape/elements")
+                    inq = dname == "double" and (vpr == "none" or (vr == "vec") == (vpr == "vec"))   # both 1-D resp. both batches, or vp=None
+                    if inq:
+                        ctx.point("rho in a call form of the quantifier == the matching elements of rho(space, space)", "aux", r.ravel(),
+                                  np.asarray(want).ravel(), case, scale=sc, sig="callshape/elements")
+                    else:   # mixed ranks / foreign dtypes are outside the quantifier (third audit B-15): recorded only
+                        w_ = np.asarray(want).ravel()
+                        ctx.info("rho in a mixed-rank / foreign-dtype form == the matching elements of rho(space, space)",
+                                 bool(np.allclose(r.ravel(), w_, rtol=1e-6, atol=1e-9 * sc)), True)
                     if mixed is not None and dname == "double" and {str(vr), str(vpr)} == {"vec", str(B)}:
                         key = "vec_batch" if vr == "vec" else "batch_vec"
                         mv = np.r_[unbits(mixed[key + "_re"]), unbits(mixed[key + "_im"])]
-                        ctx.point("rho mixed-rank elements vs Density.rhoVecBatch / rhoBatchVec", "aux", r.ravel(), mv, case, scale=sc,
-                                  sig="callshape/model-elements")
+                        ctx.info("rho mixed-rank elements vs Density.rhoVecBatch / rhoBatchVec (form outside the quantifier)",
+                                 bool(r.size == mv.size and np.allclose(r.ravel(), mv, rtol=1e-6, atol=1e-9 * sc)), True)
 
 
 # ------------------------------------------------------------------ call forms as written (extension round 2)
@@ -791,15 +799,15 @@ CALLFORM_THEOREMS = {"single": "C02_call_forms_single", "matrix": "C02_call_form
 
 def callform_class(vlead, vplead, expand):
     """which theorem / level a rank combination belongs to: the property's quantifier names "expand=True / expand=False / 1-D call forms"
-    (both arguments batches resp. both 1-D); mixed ranks and unequal batch sizes with expand=False are outside it (aux)"""
+    (both arguments batches resp. both 1-D); mixed ranks and unequal batch sizes with expand=False are outside it (info: recorded, never judged)"""
     w = vlead if vplead is None else vplead
     if not vlead and not w:
         return "single", "property"
     if vlead and w:
         if expand:
             return "matrix", "property"
-        return ("paired", "property") if vlead == w else ("paired-broadcast", "aux")
-    return "mixed", "aux"
+        return ("paired", "property") if vlead == w else ("paired-broadcast", "info")
+    return "mixed", "info"   # third audit B-15: outside the quantifier -> accepted / refused, shape AND entries are recorded only (ctx.info)
 
 
 def callform_case(ctx, case):
@@ -826,7 +834,7 @@ def callform_case(ctx, case):
     for fn, entry, f in calls:
         impl = cs.impl_result(f, entry)
         ctx.count(f"callform/{fn}: " + ("refused" if impl["refused"] else "accepted"))
-        if level == "property":
+        if level == "property" and fn == "rho":   # rho is what the property names; gamma / pi are intermediates (their refusal is recorded by cs.compare)
             ctx.oracle("call form of the quantifier accepted", not impl["refused"], {**case, "fn": fn}, detail=impl.get("exc"),
                        sig=f"callform/{fn}/{cls}/accepted", theorem=thm)
         if ctx.driver is not None:
@@ -835,9 +843,9 @@ def callform_case(ctx, case):
             model = cs.model_result(ctx.driver.call("c02.callform", **req))
             sc = float(np.max(np.abs(impl["data"]))) + 1e-300 if not impl["refused"] and impl["data"].size else 1.0
             # pi alone is not a call form the property names; gamma / pi in the quantifier's forms localise (aux), rho carries the property
-            cs.compare(ctx, f"{fn} ({cls} form, expand={expand})", level if fn == "rho" else "aux", impl, model, {**case, "fn": fn}, thm,
+            cs.compare(ctx, f"{fn} ({cls} form, expand={expand})", level if (fn == "rho" or level == "info") else "aux", impl, model, {**case, "fn": fn}, thm,
                        f"callform/{fn}/{cls}", scale=sc)
-    ctx.point("argument unmodified (call forms)", "aux", bool(torch.equal(v, v0)), True, case, exact=True, sig="callform/arg-modified")
+    ctx.info("argument unmodified (call forms)", bool(torch.equal(v, v0)), True)   # C02 does not state it (third audit B-18): recorded only
     if cls == "single" and vp is not None:
         # the single-element form against the SAME pair as one entry of the implementation's own batched forms (independent of the model)
         V, Vp = v.unsqueeze(0), vp.unsqueeze(0)
